@@ -54,3 +54,35 @@ package items
 //@     invariant [refine-new] all(k, 0, len(this.set), (old(from) <= this.set[k].From && this.set[k].To < from && this.set[k].To <= to) || this.set[k].To < old(from) || from <= this.set[k].From || to < this.set[k].From || from == old(from))
 //@     invariant [noop] imp(old(from) > to, this.set == old(this.set) && all(k, 0, len(this.set), this.set[k] == old(this.set[k])))
 //@     decreases len(this.set) - i
+//@
+//@ # ---- C01, pattern priority: the action of a lexer state ----
+//@ # "when several patterns match, a string literal used in the syntax part wins over every named pattern and otherwise
+//@ #  the earliest declared pattern wins"
+//@ specfun ReduceF(it *Item) bool
+//@ func (*Item).Reduce
+//@   nobody
+//@   # whether the dot of a basic item is at the end of its production (a pure function of the item's position stack)
+//@   ensures [fun] result == ReduceF(this)
+//@   assigns nothing
+//@
+//@ spec isTokProd(p ast.LexProduction) bool = (typeis(p, *ast.LexTokDef) && as(p, *ast.LexTokDef) != nil) || (typeis(p, *ast.LexIgnoredTokDef) && as(p, *ast.LexIgnoredTokDef) != nil) || (typeis(p, *ast.LexRegDef) && as(p, *ast.LexRegDef) != nil)
+//@ # a complete match of a token or ignored-token pattern (not of a regular definition)
+//@ spec matches(it *Item) bool = !typeis(it.Prod, *ast.LexRegDef) && ReduceF(it)
+//@ spec isLiteral(lp *ast.LexPart, it *Item) bool = has(lp.stringLitToks, it.Id) && lp.stringLitToks[it.Id] != nil
+//@ spec actOf(it *Item) Action = ite(typeis(it.Prod, *ast.LexTokDef), iface(Accept(it.Id)), ite(typeis(it.Prod, *ast.LexIgnoredTokDef), iface(Ignore(it.Id)), nil))
+//@
+//@ func (*ItemSet).Action
+//@   prop C01
+//@   requires [this] this != nil && this.lexPart != nil && all(j, 0, len(this.Items), this.Items[j] != nil && isTokProd(this.Items[j].Prod))
+//@   ensures [none] imp(!some(j, 0, len(this.Items), matches(this.Items[j])), result == nil)
+//@   ensures [winner] imp(some(j, 0, len(this.Items), matches(this.Items[j])), some(w, 0, len(this.Items), matches(this.Items[w]) && result == actOf(this.Items[w])
+//@   |   && imp(some(j, 0, len(this.Items), matches(this.Items[j]) && isLiteral(this.lexPart, this.Items[j])), isLiteral(this.lexPart, this.Items[w]))
+//@   |   && imp(!some(j, 0, len(this.Items), matches(this.Items[j]) && isLiteral(this.lexPart, this.Items[j])), all(j, 0, len(this.Items), imp(matches(this.Items[j]), this.Items[w].ProdIndex <= this.Items[j].ProdIndex)))))
+//@   assigns nothing
+//@   # the winner is a token or ignored-token definition, so the final type switch never takes its default arm
+//@   allow_unreachable typedefault
+//@   loop 1
+//@     invariant [none] (actionItem == nil) == !some(j, 0, range_i1, matches(this.Items[j]))
+//@     invariant [member] imp(actionItem != nil, some(w, 0, range_i1, this.Items[w] == actionItem && matches(this.Items[w])))
+//@     invariant [literal] imp(some(j, 0, range_i1, matches(this.Items[j]) && isLiteral(this.lexPart, this.Items[j])), actionItem != nil && isLiteral(this.lexPart, actionItem))
+//@     invariant [earliest] imp(actionItem != nil && !some(j, 0, range_i1, matches(this.Items[j]) && isLiteral(this.lexPart, this.Items[j])), all(j, 0, range_i1, imp(matches(this.Items[j]), actionItem.ProdIndex <= this.Items[j].ProdIndex)))
